@@ -5,6 +5,7 @@ Requests
   `reset`                 → fresh `St` (a new `Koto` instance); response `ok`
   `ev <tok> <tok> …`      → apply the events to the current state; response = state summary
   `state`                 → state summary
+  `repl <line> …`         → a REPL session (`Model/Repl.lean`): per typed line `m`/`c` (prompt shown next)
   `gen <tok>… / <tok>… …` → a generator VM (`genInit`) resumed once per `/`-separated event group
                             (`genResume`); response `frames seq str finished` (hook H5 reports the
                             first three for a real generator)
@@ -21,6 +22,7 @@ State summary:
 -/
 import KotoVerif.Common.Proto
 import KotoVerif.Model.Unwind
+import KotoVerif.Model.Repl
 
 open KotoVerif KotoVerif.Unwind
 
@@ -81,6 +83,31 @@ def stepLine (st : St) (line : String) : St × String :=
       let st' := run evs st
       (st', summary st')
     | none => (st, "bad-request")
+  | "repl" :: toks =>
+    -- one REPL session: a token per typed line `<b|l><indent>:<ok|err|ind|oth>:<0|1>`;
+    -- answer: per line `m` (main prompt next) or `c` (continuation prompt next)
+    let parseLine (t : String) : Option KotoVerif.Repl.Line :=
+      match t.splitOn ":" with
+      | [a, v, p] =>
+        match a.toList with
+        | k :: ds => do
+          let ind ← (String.ofList ds).toNat?
+          let verdict ← match v with
+            | "ok" => some KotoVerif.Repl.Verdict.runOk
+            | "err" => some .runErr
+            | "ind" => some .indentErr
+            | "oth" => some .otherErr
+            | _ => none
+          pure { blank := k == 'b', indent := ind, verdict := verdict, pushIndents := p == "1" }
+        | [] => none
+      | _ => none
+    match toks.mapM parseLine with
+    | none => (st, "bad-request")
+    | some ls =>
+      let (_, out) := ls.foldl (fun (acc : KotoVerif.Repl.State × List String) l =>
+        let s' := KotoVerif.Repl.onLine acc.1 l
+        (s', acc.2 ++ [if KotoVerif.Repl.atMainPrompt s' then "m" else "c"])) ({}, [])
+      (st, " ".intercalate out)
   | "gen" :: toks =>
     -- one generator VM: resumptions separated by `/`; answer `frames seq str finished`
     let groups := (" ".intercalate toks).splitOn "/"
